@@ -115,6 +115,7 @@ def run_case(case):
     out = {"outcome": "ok", "text": text, "notes": []}
 
     rngseam.install(case.get("seed", 0))
+    fp0 = rngseam.rng_fingerprint()
     rng = _random.Random(case.get("seed", 0))
     sched = Scheduler(rng, case.get("policy", "mixed"), case.get("script"))
     trace = []
@@ -151,6 +152,12 @@ def run_case(case):
         rngseam.set_controller(None)
 
     missing = ctl.drain()
+    if rngseam.rng_fingerprint() != fp0:
+        # randomness was drawn past the scripted seam (an entry point the seam does not know): the run cannot be coupled
+        out["outcome"] = "inconclusive"
+        out["notes"].append("unscripted randomness: the state of the real generators changed during the run")
+        out["unscripted"] = True
+        return out
     out["draws"] = len(ctl.events)
     out["script"] = list(sched.used)
     out["n_extreme"] = sched.n_extreme
